@@ -23,6 +23,7 @@ def main(argv=None):
     parser.add_argument('--replay', default=None)
     parser.add_argument('--expect', default=None)
     parser.add_argument('--mini-digest', type=int, default=None)
+    parser.add_argument('--aux', nargs='+', default=None, help='module-specific sub-command run in a fresh interpreter')
     args = parser.parse_args(argv)
     faulthandler.enable()
     try:
@@ -36,6 +37,8 @@ def main(argv=None):
         core.setup_repo()
         module = importlib.import_module('simverif.props.' + prop.lower())
         seed = core.batch_seed()
+        if args.aux:
+            return module.aux(args.aux[0], args.aux[1:])
         if args.replay:
             if hasattr(module, 'prepare'):
                 module.prepare(args.tier)
